@@ -24,7 +24,7 @@ import ast
 import copy
 import itertools
 import os
-from typing import Dict, List, Optional, Set, Tuple
+from typing import Dict, Iterable, List, Optional, Set, Tuple
 
 from .. import cfg as C
 from .. import lib as L
@@ -1894,3 +1894,238 @@ class Positions:
                     out |= self._unpacked(st.target, arg, name, an, depth)
             return out
         return self.sources(it, d, depth + 1)
+
+
+# ================================================================================================ walks over token lists (round 5: hardening)
+# Helpers for clauses of the form "under the valuation of the guard atoms that describes a well-formed element, every turn of the walk
+# brings the element to its sink and goes on with the next one" and "the value handed on comes from position P of the element".
+def safe_trace(p, e: ast.AST, **kw) -> Set[tuple]:
+    try:
+        return p.trace(e, **kw)
+    except (KeyError, RecursionError):
+        return set()
+
+
+def position_of(path: tuple, start: int) -> tuple:
+    """the positional steps (index / slice; unpacking a, b, c = X counts as the index) that follow path[:start]"""
+    out = []
+    for st in path[start:]:
+        if st == "item" or st.startswith("item:") or st.startswith("slice:"):
+            out.append(st)
+        elif st.startswith("unpack:") and st[7:].isdigit():
+            out.append("item:" + st[7:])
+        else:
+            break
+    return tuple(out)
+
+
+def _cmp_truth(op: ast.cmpop, a: int, b: int) -> Optional[bool]:
+    for cls, fn_ in ((ast.Eq, lambda: a == b), (ast.NotEq, lambda: a != b), (ast.Lt, lambda: a < b), (ast.LtE, lambda: a <= b),
+                     (ast.Gt, lambda: a > b), (ast.GtE, lambda: a >= b)):
+        if isinstance(op, cls):
+            return fn_()
+    return None
+
+
+def _int_const(e: ast.AST) -> Optional[int]:
+    if isinstance(e, ast.Constant) and isinstance(e.value, int) and not isinstance(e.value, bool):
+        return e.value
+    return None
+
+
+def compare_at(e: ast.AST, is_subject, n: int) -> Optional[bool]:
+    """truth of the comparison `S <op> K` / `K <op> S` (K an integer literal, `is_subject(S)`) when S has the value n; None: not such a test"""
+    if not (isinstance(e, ast.Compare) and len(e.ops) == 1):
+        return None
+    l, r_ = e.left, e.comparators[0]
+    k = _int_const(r_)
+    if k is not None and is_subject(l):
+        return _cmp_truth(e.ops[0], n, k)
+    k = _int_const(l)
+    if k is not None and is_subject(r_):
+        return _cmp_truth(e.ops[0], k, n)
+    return None
+
+
+def element_atoms(p, elem: tuple, keywords: Dict[str, str], tables: Dict[tuple, str], length: Optional[Tuple[int, str]] = None):
+    """matcher for `L.Guards` about ONE element (provenance path `elem`) of a list of token lists:
+      * `<head> == K` / `!=`   for K in `keywords`  (head = first token of the element)          -> atom keywords[K]
+      * `<head> in T` / `not in` for a table T (provenance path) in `tables`                       -> atom tables[T]
+      * `len(<element>) <op> n` evaluated for an element of `length[0]` tokens                    -> atom length[1] (with the polarity the
+        test has for that length: `len(x) != 3`, `len(x) < 3`, `len(x) == 4` are all false for three tokens)"""
+    head = elem + ("item:0",)
+
+    def is_head(e):
+        tr = safe_trace(p, e)
+        return bool(tr) and all(position_of(x, len(elem)) == ("item:0",) and x[:len(elem)] == elem and len(x) == len(elem) + 1 for x in tr)
+
+    def is_len_of_element(e):
+        if not (isinstance(e, ast.Call) and isinstance(e.func, ast.Name) and e.func.id == "len" and len(e.args) == 1 and not e.keywords):
+            return False
+        tr = safe_trace(p, e.args[0])
+        return bool(tr) and all(x == elem for x in tr)
+
+    def matcher(e):
+        if not (isinstance(e, ast.Compare) and len(e.ops) == 1):
+            return None
+        op, l, r_ = e.ops[0], e.left, e.comparators[0]
+        if isinstance(op, (ast.Eq, ast.NotEq)):
+            for a_, b_ in ((l, r_), (r_, l)):
+                if isinstance(b_, ast.Constant) and isinstance(b_.value, str) and b_.value in keywords and is_head(a_):
+                    return keywords[b_.value] if isinstance(op, ast.Eq) else "!" + keywords[b_.value]
+        if isinstance(op, (ast.In, ast.NotIn)) and tables and is_head(l):
+            tr = safe_trace(p, r_)
+            for t, atom in tables.items():
+                if tr and all(x == t for x in tr):
+                    return atom if isinstance(op, ast.In) else "!" + atom
+        if length is not None:
+            v = compare_at(e, is_len_of_element, length[0])
+            if v is not None:
+                return length[1] if v else "!" + length[1]
+        return None
+
+    matcher.head = head
+    return matcher
+
+
+def misplaced_head_tests(f: FuncInfo, p, elem: tuple, keywords: Iterable[str], tables: Iterable[tuple]) -> List[ast.Compare]:
+    """comparisons that test a section keyword / membership in a table of declared names on a token of the element that is NOT its head
+    (`x[1] == '='`): the kind of an element is decided by its first token"""
+    keywords, tables = set(keywords), set(tables)
+    out = []
+    for e in ast.walk(f.node):
+        if not (isinstance(e, ast.Compare) and len(e.ops) == 1):
+            continue
+        op, l, r_ = e.ops[0], e.left, e.comparators[0]
+        subject = None
+        if isinstance(op, (ast.Eq, ast.NotEq)):
+            for a_, b_ in ((l, r_), (r_, l)):
+                if isinstance(b_, ast.Constant) and isinstance(b_.value, str) and b_.value in keywords:
+                    subject = a_
+        elif isinstance(op, (ast.In, ast.NotIn)):
+            tr = safe_trace(p, r_)
+            if tr and any(all(x == t for x in tr) for t in tables):
+                subject = l
+        if subject is None:
+            continue
+        tr = safe_trace(p, subject)
+        if tr and all(x[:len(elem)] == elem and len(position_of(x, len(elem))) == len(x) - len(elem) == 1 for x in tr) and \
+                not any(position_of(x, len(elem)) == ("item:0",) for x in tr):
+            out.append(e)
+    return out
+
+
+def loops_over(f: FuncInfo, p, root: tuple) -> List[ast.For]:
+    """the statement loops whose iterable is (an alias of) the value with provenance `root`"""
+    out = []
+    for n in ast.walk(f.node):
+        if isinstance(n, ast.For):
+            tr = safe_trace(p, n.iter)
+            if tr and all(x == root for x in tr):
+                out.append(n)
+    return out
+
+
+STORING_METHODS = ("add", "append", "update", "extend", "insert", "appendleft", "__setitem__")
+
+
+def storing_nodes(f: FuncInfo, p, g, is_value) -> List[int]:
+    """CFG nodes of the statements that put a value selected by `is_value(paths)` into a container: `X[k] = v`, `X.add(v)`, `X.append(v)` ..."""
+    out = []
+    for n in ast.walk(f.node):
+        vals: List[ast.AST] = []
+        if isinstance(n, ast.Assign) and any(isinstance(t, ast.Subscript) for t in n.targets):
+            vals = [n.value]
+        elif isinstance(n, ast.Expr) and isinstance(n.value, ast.Call) and isinstance(n.value.func, ast.Attribute) and n.value.func.attr in STORING_METHODS:
+            vals = list(n.value.args)
+        if vals and any(is_value(safe_trace(p, v)) for v in vals):
+            k = g.node_of(n)
+            if k is not None:
+                out.append(k)
+    return out
+
+
+def walk_defect(G, valuation: Dict[str, bool], loop: ast.For, sinks: Iterable[int]) -> Optional[str]:
+    """None when, under the valuation, every turn of the loop brings the element to one of the sink statements and then goes on with the
+    next element; otherwise what goes wrong"""
+    g = G.g
+    head = g.node_of(loop)
+    sinks = set(sinks)
+    reach: Set[int] = set()
+    for m, l in g.succ[head]:
+        if l == "iter":
+            reach |= G.reach(valuation, start=m)
+    live = sorted(n for n in sinks if n in reach)
+    if not live:
+        return "is never stored (the storing statement is missing or cut off by the tests in front of it)"
+    if not L.must_pass_in_loop(G, valuation, loop, sinks):
+        return "is not stored on every path through one turn of the loop"
+    if L.leaves_loop_early(G, valuation, loop):
+        return "ends the walk: the elements after it are not read"
+    for n in live:
+        if head not in G.reach(valuation, start=n):
+            return "is stored, but the turn does not go on with the next element (it can only raise)"
+    return None
+
+
+def none_test_atoms(p, roots: Dict[tuple, str], pm: Optional[dict] = None):
+    """matcher for `X is None` / `is not None` / `== None` / `!= None` where X has exactly the provenance path in `roots`; the atom is true
+    when X IS None.  With the parent map `pm` also X used as a truth value (`if X:`, `X and ..`, `not X`, `.. if X else ..`)"""
+    def truth_context(e) -> bool:
+        par = pm.get(e) if pm is not None else None
+        if isinstance(par, (ast.If, ast.While, ast.IfExp, ast.Assert)):
+            return par.test is e
+        if isinstance(par, ast.BoolOp):
+            return True
+        return isinstance(par, ast.UnaryOp) and isinstance(par.op, ast.Not)
+
+    def matcher(e):
+        if pm is not None and isinstance(e, (ast.Name, ast.Attribute)) and isinstance(getattr(e, "ctx", None), ast.Load) and truth_context(e):
+            tr = safe_trace(p, e)
+            for root, atom in roots.items():
+                if tr and all(x == root for x in tr):
+                    return "!" + atom
+        if isinstance(e, ast.Compare) and len(e.ops) == 1 and isinstance(e.ops[0], (ast.Is, ast.IsNot, ast.Eq, ast.NotEq)) and \
+                isinstance(e.comparators[0], ast.Constant) and e.comparators[0].value is None:
+            tr = safe_trace(p, e.left)
+            for root, atom in roots.items():
+                if tr and all(x == root for x in tr):
+                    return atom if isinstance(e.ops[0], (ast.Is, ast.Eq)) else "!" + atom
+        return None
+    return matcher
+
+
+def any_matcher(*ms):
+    def matcher(e):
+        for m in ms:
+            a = m(e)
+            if a is not None:
+                return a
+        return None
+    return matcher
+
+
+def dereferences(f: FuncInfo, p, root: tuple) -> List[ast.Attribute]:
+    """attribute reads `X.a` where X has exactly the provenance `root`"""
+    out = []
+    for n in ast.walk(f.node):
+        if isinstance(n, ast.Attribute) and isinstance(n.ctx, ast.Load):
+            tr = safe_trace(p, n.value)
+            if tr and all(x == root for x in tr):
+                out.append(n)
+    return out
+
+
+def unbound_names(f: FuncInfo, p, g, expr: ast.AST, seen: Set[int]) -> List[str]:
+    """local names read in `expr` all of whose reaching definitions lie in statements that are not executed (not in `seen`): under the
+    valuation that gave `seen` the read raises UnboundLocalError"""
+    out = []
+    n = g.node_containing(expr)
+    if n is None or n not in seen:
+        return out
+    for x in ast.walk(expr):
+        if isinstance(x, ast.Name) and isinstance(x.ctx, ast.Load):
+            defs = p.rd.defs_reaching(n, x.id)
+            if defs and not any(d in seen for d in defs) and g.entry not in defs:
+                out.append(x.id)
+    return out
